@@ -27,8 +27,12 @@ def runs(tier):
                                                  KindPairs={('zero', 'zero'), ('zmid', 'zmid'), ('zfirst', 'zfirst')})))
     out.append(dict(name='g2', constants=dict(base, MaxD=3, RanksS={2} if q else {1, 2}, Scenarios={'single'}, Ops=OPS, MaxDepth=2,
                                               KindPairs={('complex', 'complex')})))
+    # sweeps on objects whose cores are views with unusual memory layouts (results of rank_transpose / transpose)
+    out.append(dict(name='gview', constants=dict(base, MaxD=3, RanksS={2, 3}, Scenarios={'single'}, MaxDepth=2, Lean=True,
+                                                 OpsAt=[{'RankTranspose', 'Transpose'}, OPS], KindPairs={('real', 'real')})))
     return out
 
 
 def main(tier):
-    return poolcheck.run('C03', tier, runs(tier), ASSUME, RULE)
+    # every history is replayed with C-ordered and with Fortran-ordered input cores (same values)
+    return poolcheck.run('C03', tier, runs(tier), ASSUME, RULE, layouts=('C', 'F'))
